@@ -326,3 +326,116 @@ def props_only(caller, callee, depth):
 
 def kw(ev, name, default=None):
     return (ev.d.get('kwargs') or {}).get(name, default)
+
+
+# ---------------------------------------------------------------------- A7 constants, method chains
+def time_of_day(t):
+    """(hour, minute) denoted by a literal term: datetime.time(h, m), pandas.Timedelta(hours=h, minutes=m),
+    datetime.datetime(y, m, d, h, mi) / pandas.Timestamp of it, or 'HH:MM:SS'."""
+    def n(x):
+        return int(x[1]) if x is not None and x[0] == 'num' and x[1].denominator == 1 else None
+    if t[0] == 'str':
+        parts = t[1].split(':')
+        if len(parts) in (2, 3) and all(p.isdigit() for p in parts):
+            if len(parts) == 3 and int(parts[2]) != 0:
+                return None
+            return (int(parts[0]), int(parts[1]))
+        return None
+    if t[0] != 'call':
+        return None
+    name = t[1][1] if t[1][0] == 'ext' else None
+    args, kws = t[2], dict(t[3])
+    if name in ('datetime.time',):
+        a = [n(x) for x in args] + [0] * 4
+        hh = n(kws['hour']) if 'hour' in kws else a[0]
+        mm = n(kws['minute']) if 'minute' in kws else a[1]
+        if a[2] or a[3] or set(kws) - {'hour', 'minute', 'tzinfo'}:
+            return None
+        return (hh, mm or 0)
+    if name in ('pandas.Timedelta', 'datetime.timedelta', 'pandas.DateOffset', 'pandas.offsets.DateOffset'):
+        if args:
+            return None
+        h = n(kws.get('hours', ('num', T.ZERO[1])))
+        m = n(kws.get('minutes', ('num', T.ZERO[1])))
+        if set(kws) - {'hours', 'minutes'}:
+            return None
+        return (h, m)
+    if name in ('datetime.datetime',):
+        a = [n(x) for x in args]
+        if len(a) < 3:
+            return None
+        a = a + [0] * (7 - len(a))
+        if a[5] or a[6]:
+            return None
+        return (a[3] or 0, a[4] or 0)
+    if name in ('pandas.Timestamp', 'pandas.to_datetime') and args:
+        return time_of_day(args[0])
+    return None
+
+
+def chain_ops(t, stop=None):
+    """method/attribute/subscript chain of a term, innermost first: [(root,), ('meth', name, args, kwargs), ('attr', name), ('sub', index), ...]"""
+    ops = []
+    while True:
+        if stop is not None and t == stop:
+            ops.append(('root', t))
+            break
+        if t[0] == 'call' and t[1][0] == 'meth' and t[2]:
+            ops.append(('meth', t[1][1], t[2][1:], dict(t[3])))
+            t = t[2][0]
+        elif t[0] == 'attr':
+            ops.append(('attr', t[2]))
+            t = t[1]
+        elif t[0] == 'sub':
+            ops.append(('sub', t[2]))
+            t = t[1]
+        else:
+            ops.append(('root', t))
+            break
+    return list(reversed(ops))
+
+
+def op_names(ops):
+    out = []
+    for o in ops:
+        if o[0] == 'meth':
+            out.append(o[1])
+        elif o[0] == 'attr':
+            out.append('.' + o[1])
+        elif o[0] == 'sub':
+            out.append('[]')
+    return out
+
+
+def all_terms_of(path):
+    """every term appearing on a path: values written, call arguments, conditions, the return value"""
+    for e in path.flat_events():
+        if e.kind == 'write' and e.value is not None:
+            yield e.value
+            yield e.loc
+        elif e.kind == 'call':
+            if e.d.get('result') is not None:
+                yield e.result
+        elif e.kind == 'yield':
+            yield e.value
+        elif e.kind == 'comp':
+            for x in e.events:
+                if x.kind == 'call' and x.d.get('result') is not None:
+                    yield x.result
+    for c, _, _ in path.conds:
+        if c[0] != 'exc':
+            yield c
+    if path.value is not None:
+        yield path.value
+
+
+def meth_calls_in(path, names):
+    """every method call term (anywhere on the path) whose method name is in `names`"""
+    out = []
+    for t in all_terms_of(path):
+        for s in T.subterms(t):
+            if s[0] == 'call' and s[1][0] == 'meth' and s[1][1] in names:
+                out.append(s)
+            elif s[0] == 'call' and s[1][0] == 'ext' and s[1][1].split('.')[-1] in names:
+                out.append(s)
+    return out
